@@ -34,6 +34,85 @@ fn oracle_selftest(depth: usize) -> Result<(), String> {
     }
 }
 
+/// Offline helper (not a check): random playouts from the initial position with the reference
+/// rules; prints, for every label SHAPE seen (piece letter / disambiguation kind / capture /
+/// promotion / suffix / castling), the shortest game whose last move carries such a label.
+/// The output is curated into /verif/corpus/pvp_games.txt.
+fn tool_pvp_corpus(games: u64, seed: u64) {
+    use chess_verif::oracle::notation::{san, uci};
+    use chess_verif::oracle::{Kind, Mv, P};
+    use std::collections::BTreeMap;
+    let shape = |label: &str| -> String {
+        if label.starts_with("O-O") {
+            return label.to_string();
+        }
+        let mut out = String::new();
+        let mut after_eq = false;
+        for (i, ch) in label.chars().enumerate() {
+            out.push(match ch {
+                'N' | 'B' | 'R' | 'Q' | 'K' if i == 0 => 'P',
+                'N' | 'B' | 'R' | 'Q' if after_eq => 'M',
+                'a'..='h' => 'f',
+                '1'..='8' => 'r',
+                '=' => {
+                    after_eq = true;
+                    '='
+                }
+                c => c,
+            });
+        }
+        out
+    };
+    let mut x = seed.wrapping_mul(0x9E3779B97F4A7C15) | 1;
+    let mut next = move || {
+        x ^= x << 13;
+        x ^= x >> 7;
+        x ^= x << 17;
+        x
+    };
+    let mut best: BTreeMap<String, Vec<Mv>> = BTreeMap::new();
+    for _ in 0..games {
+        let mut pos = Pos::start();
+        let mut line: Vec<Mv> = Vec::new();
+        let style = next() % 3;
+        for _ply in 0..110 {
+            let legal = pos.legal_moves();
+            if legal.is_empty() || pos.half >= 100 {
+                break;
+            }
+            for m in &legal {
+                let sh = shape(&san(&pos, m, &legal));
+                let len = line.len() + 1;
+                if best.get(&sh).map(|b| b.len() > len).unwrap_or(true) {
+                    let mut g = line.clone();
+                    g.push(*m);
+                    best.insert(sh, g);
+                }
+            }
+            // policy: sometimes push/capture with pawns (promotions), sometimes avoid captures of pieces
+            let pawn_moves: Vec<&Mv> = legal.iter().filter(|m| pos.sq[m.from as usize].map(|p| p.0) == Some(P::Pawn)).collect();
+            let promos: Vec<&Mv> = legal.iter().filter(|m| m.kind == Kind::Promo && m.promo == Some(P::Queen)).collect();
+            let non_caps: Vec<&Mv> = legal.iter().filter(|m| m.cap.is_none()).collect();
+            let r = next();
+            let m = if !promos.is_empty() && r % 4 != 0 {
+                *promos[(next() % promos.len() as u64) as usize]
+            } else if style == 0 && !pawn_moves.is_empty() && r % 3 != 0 {
+                *pawn_moves[(next() % pawn_moves.len() as u64) as usize]
+            } else if style == 1 && !non_caps.is_empty() && r % 5 != 0 {
+                *non_caps[(next() % non_caps.len() as u64) as usize]
+            } else {
+                legal[(next() % legal.len() as u64) as usize]
+            };
+            pos = pos.make(&m);
+            line.push(m);
+        }
+    }
+    for (sh, g) in &best {
+        println!("# shape {}\n{}", sh, g.iter().map(uci).collect::<Vec<_>>().join(" "));
+    }
+    eprintln!("{} shapes", best.len());
+}
+
 const FUZZED: [&str; 5] = ["C03", "C04", "C05", "C12", "C16"];
 
 struct FuzzOutcome {
@@ -165,6 +244,13 @@ fn main() {
                 std::process::exit(2)
             }
         }
+    }
+    if args[0] == "tool" && args.get(1).map(|s| s.as_str()) == Some("pvp-corpus") {
+        tool_pvp_corpus(
+            args.get(2).and_then(|s| s.parse().ok()).unwrap_or(20000),
+            args.get(3).and_then(|s| s.parse().ok()).unwrap_or(1),
+        );
+        return;
     }
     let id = args[0].clone();
     let spec = match checks::property(&id) {
